@@ -628,6 +628,14 @@ char *macros_expand_params(
 
   while (true)
   {
+    // An escape adds two chars and the terminator is added after the loop.
+    if (ptr >= (int)sizeof(params) - 3 || count >= 255)
+    {
+      print_error(asm_context, "Macro parameters too long");
+      asm_context->error = 1;
+      return nullptr;
+    }
+
     ch = tokens_get_char(asm_context);
 
     if (ch == '\t') { ch = ' '; }
@@ -695,13 +703,30 @@ for (int n = 0; n < count; n++)
 
   ptr = asm_context->def_param_stack_ptr[asm_context->def_param_stack_count];
 
+  if (ptr >= PARAM_STACK_LEN - 1)
+  {
+    print_error(asm_context, "Macro expansion too long");
+    asm_context->error = 1;
+    return nullptr;
+  }
+
   while (*define != 0)
   {
     if (*define == 1)
     {
       define++;
 
-      strcpy(asm_context->def_param_stack_data + ptr, params + params_ptr[((int)*define) - 1]);
+      const int index = (uint8_t)*define;
+
+      if (index < 1 || index > count ||
+          ptr + strlen(params + params_ptr[index - 1]) >= PARAM_STACK_LEN - 1)
+      {
+        print_error(asm_context, "Macro expansion too long");
+        asm_context->error = 1;
+        return nullptr;
+      }
+
+      strcpy(asm_context->def_param_stack_data + ptr, params + params_ptr[index - 1]);
 
       while (*(asm_context->def_param_stack_data + ptr) != 0) { ptr++; }
     }
@@ -710,7 +735,7 @@ for (int n = 0; n < count; n++)
       asm_context->def_param_stack_data[ptr++] = *define;
     }
 
-    if (ptr >= PARAM_STACK_LEN)
+    if (ptr >= PARAM_STACK_LEN - 1)
     {
       print_error_internal(nullptr, __FILE__, __LINE__);
       exit(1);
